@@ -66,7 +66,7 @@ type cas struct {
 	target   int
 	opts     int
 	withMask int // bit0: a, bit1: c (only with oW)
-	wstyle   int // 0 quoted keys, literal values; 1 unquoted keys; 2 value of c computed from the includer's b
+	wstyle   int // 0 quoted keys, literal values; 1 unquoted keys; 2 value of c computed from the includer's b; 3 literals full of tag syntax
 	name     int // name form, see model.go nameExpr
 	place    int
 	incMask  int // includer defines bit0: a, bit1: b
@@ -139,12 +139,18 @@ func build(c cas) *program {
 	inc := nInclude{name: nameExpr{form: c.name, target: tn}, withOn: c.opts&oW != 0, only: c.opts&oO != 0, ignore: c.opts&oI != 0, sandboxed: c.opts&oS != 0}
 	if inc.withOn {
 		if c.withMask&1 != 0 {
-			inc.with = append(inc.with, withEntry{key: "a", unq: c.wstyle == 1, lit: "Wa"})
+			e := withEntry{key: "a", unq: c.wstyle == 1, lit: "Wa"}
+			if c.wstyle == 3 {
+				e.lit = "W:a,}"
+			}
+			inc.with = append(inc.with, e)
 		}
 		if c.withMask&2 != 0 {
 			e := withEntry{key: "c", unq: c.wstyle == 1, lit: "Wc"}
 			if c.wstyle == 2 {
 				e.lit, e.fromVar = "", "b"
+			} else if c.wstyle == 3 {
+				e.lit = " with {only} "
 			}
 			inc.with = append(inc.with, e)
 		}
@@ -431,8 +437,8 @@ type bounds struct {
 
 func enumerate(t *vlib.T) {
 	b := bounds{
-		names:    []int{0, 2, 4},
-		wstyles:  []int{0, 1, 2},
+		names:    []int{0, 2, 5},
+		wstyles:  []int{0, 1, 2, 3},
 		defSets:  []bool{false},
 		setMasks: []int{0, 1, 2, 3, 4, 5, 6, 7, 8, 9, 10, 11, 12, 13, 14, 15},
 		extras:   []int{0, 4},
@@ -461,7 +467,9 @@ func enumerate(t *vlib.T) {
 			if wm == 3 {
 				styles = b.wstyles
 			} else if wm == 2 && t.Thorough() {
-				styles = []int{0, 2}
+				styles = []int{0, 2, 3}
+			} else if t.Thorough() {
+				styles = []int{0, 3}
 			}
 			for _, st := range styles {
 				ows = append(ows, ow{opts, wm, st})
@@ -474,7 +482,7 @@ func enumerate(t *vlib.T) {
 			if x.withMask != 0 && x.withMask != 3 {
 				continue
 			}
-			if x.wstyle == 1 {
+			if x.wstyle == 1 || x.wstyle == 3 {
 				continue
 			}
 			for _, nm := range failNames {
